@@ -2,6 +2,7 @@
 must not take the check down with it).  argv: <tree root> <verif root> <cases.json> <start index>.
 Prints `@ <i>` before and `= <json list of output lines>` after each case."""
 import json
+import signal
 import sys
 
 root, verif, cases_file, start = sys.argv[1], sys.argv[2], sys.argv[3], int(sys.argv[4])
@@ -14,6 +15,7 @@ from harness.impl_chelpers import CHelpersImpl  # noqa: E402
 cases = json.load(open(cases_file))
 w = sys.stdout.write
 for i in range(start, len(cases)):
+    signal.alarm(20)      # watchdog: a hanging case (corrupted heap dead-locking malloc) kills this child
     w(f"@ {i}\n")
     sys.stdout.flush()
     impl = CHelpersImpl()
